@@ -2251,11 +2251,12 @@ Qed.
 
 Lemma step_Accept s : Inv s -> step_ok s Accept.
 Proof.
-  intros [[G HC] HH]. unfold step_ok, step, accept. destruct (s_srv s) eqn:Hsrv; [|exact I]. cbn [negb].
+  intros [[G HC] HH]. unfold step_ok, step, accept.
   set (io := if s_nio s =? 0 then 0 else S (s_rr s)).
   set (rr := if s_nio s =? 0 then 0 else if S (s_rr s) <? s_nio s then S (s_rr s) else 0).
   set (c := length (s_conns s)). set (k0 := fresh io CbServer).
   fold (add_conn s k0 rr (s_cliconn s)). set (s1 := add_conn s k0 rr (s_cliconn s)).
+  destruct (s_srv s) eqn:Hsrv; [|exact I]. cbn [negb].
   assert (Hio : io <= s_nio s).
   { unfold io. destruct (s_nio s =? 0) eqn:E; [lia|]. apply Nat.eqb_neq in E. destruct (gi_rr s G); lia. }
   assert (Hrr : s_nio s = 0 \/ rr < s_nio s).
@@ -2281,11 +2282,13 @@ Proof.
   destruct (io =? 0) eqn:Eio.
   - (* the acceptor loop is the io loop: connectEstablished runs inline *)
     apply Nat.eqb_eq in Eio. unfold establish. unfold getc at 1. fold (getc s1 c). unfold s1, c. rewrite getc_add_new.
-    cbn [k0 fresh k_alive k_loop k_st negb cstate_eqb set_life k_wr]. rewrite Eio. cbn [Nat.eqb negb emit].
-    fold c. fold s1. apply finish_ok. rewrite <- Eio. fold k0.
+    assert (Hk0 : k_alive k0 = true /\ k_loop k0 = io /\ k_st k0 = Connecting) by (unfold k0; cbn; auto).
+    destruct Hk0 as (K1 & K2 & K3). rewrite K1, K2, K3, Eio. cbn [Nat.eqb negb emit cstate_eqb set_life k_wr].
+    assert (K4 : k_wr k0 = false) by reflexivity. rewrite K4.
+    fold c. fold s1. apply finish_ok.
     set (k' := chan_update (s_readd s1) (set_life k0 Connected (S (k_ups k0)) (k_downs k0)) false true).
     pose proof (chan_update_fields (s_readd s1) (set_life k0 Connected (S (k_ups k0)) (k_downs k0)) false true) as F. cbv zeta in F.
-    fold k' in F. cbn [set_life k0 fresh k_st k_rflag k_loop k_alive k_ccb k_mapped k_urefs k_delayed k_fin k_ups k_downs k_dtors k_closes] in F.
+    fold k' in F. unfold k0 in F. cbn [set_life fresh k_st k_rflag k_loop k_alive k_ccb k_mapped k_urefs k_delayed k_fin k_ups k_downs k_dtors k_closes] in F.
     destruct F as (F1 & F2 & F3 & F4 & F5 & F6 & F7 & F8 & F9 & F10 & F11 & F12 & F13 & F14 & F15 & F16 & F17).
     assert (Hgc : getc s1 c = Some k0) by apply getc_add_new.
     apply (Hclose (put s1 c k')).
@@ -2295,7 +2298,6 @@ Proof.
     + intros k2 Hk2. rewrite getc_put_eq in Hk2 by (eapply getc_lt, Hgc). injection Hk2 as <-.
       apply cinv_build; try congruence.
       * rewrite F6. exact Hio.
-      * intros Hx. congruence.
       * intros Hx. exfalso. apply Hx. left. exact F1.
       * unfold counters_ok. rewrite F1, F13, F14. auto.
       * apply chan_update_poller.
@@ -2332,4 +2334,921 @@ Proof.
               ** pose proof (sumq_ge (fun l => cnt (isD c) (q_todo l)) _ io v Hv). unfold loop_todo. rewrite Hv. unfold todoN in ND. cbn in *. lia.
               ** pose proof (sumq_ge (fun l => cnt (isF c) (q_todo l)) _ io v Hv). unfold loop_todo. rewrite Hv. unfold todoN in NF. cbn in *. lia.
         -- left. repeat split; auto; lia.
+Qed.
+
+Lemma step_CliConnect s : Inv s -> step_ok s CliConnect.
+Proof.
+  intros [[G HC] HH]. unfold step_ok, step, cli_connect.
+  set (c := length (s_conns s)). set (k0 := fresh 0 CbClient).
+  fold (add_conn s k0 (s_rr s) (Some c)). set (s1 := add_conn s k0 (s_rr s) (Some c)).
+  destruct (s_cli s) eqn:Hcli; [|exact I]. cbn [negb]. destruct (s_cliconn s) eqn:Hcc; [exact I|].
+  unfold establish. unfold getc at 1. fold (getc s1 c). unfold s1, c. rewrite getc_add_new.
+  assert (Hk0 : k_alive k0 = true /\ k_loop k0 = 0 /\ k_st k0 = Connecting /\ k_wr k0 = false) by (unfold k0; cbn; auto).
+  destruct Hk0 as (K1 & K2 & K3 & K4). rewrite K1, K2, K3. cbn [Nat.eqb negb emit cstate_eqb set_life k_wr]. rewrite K4.
+  fold c. fold s1. apply finish_ok.
+  set (k' := chan_update (s_readd s1) (set_life k0 Connected (S (k_ups k0)) (k_downs k0)) false true).
+  pose proof (chan_update_fields (s_readd s1) (set_life k0 Connected (S (k_ups k0)) (k_downs k0)) false true) as F. cbv zeta in F.
+  fold k' in F. unfold k0 in F. cbn [set_life fresh k_st k_rflag k_loop k_alive k_ccb k_mapped k_urefs k_delayed k_fin k_ups k_downs k_dtors k_closes] in F.
+  destruct F as (F1 & F2 & F3 & F4 & F5 & F6 & F7 & F8 & F9 & F10 & F11 & F12 & F13 & F14 & F15 & F16 & F17).
+  destruct (no_task_about_new s (isE c) G (fun t H => isX_new c t (or_introl H))) as [NE _].
+  destruct (no_task_about_new s (isR c) G (fun t H => isX_new c t (or_intror (or_introl H)))) as [NR _].
+  destruct (no_task_about_new s (isD c) G (fun t H => isX_new c t (or_intror (or_intror (or_introl H))))) as [ND _].
+  (* the final state: the established connection appended, connection_ naming it *)
+  set (s2 := put s1 c k').
+  assert (Es2 : forall c1, c1 <> c -> getc s2 c1 = getc s1 c1) by (intros c1 Hn; apply getc_put_neq; auto).
+  assert (Hgc : getc s2 c = Some k') by (apply getc_put_eq; unfold s1, add_conn; cbn; rewrite app_length; cbn; fold c; lia).
+  assert (G2 : GInv s2).
+  { assert (G1 : GInv (add_conn s k' (s_rr s) (Some c))).
+    { apply add_conn_ginv; [exact G|exact (gi_rr s G)|]. right. repeat split; auto; try congruence. left. exact F1. }
+    assert (E : s2 = add_conn s k' (s_rr s) (Some c)).
+    { unfold s2, s1, put, add_conn, set_conns. cbn. f_equal. fold c. clear. unfold c. generalize (s_conns s).
+      induction l as [|x l IH]; cbn; [reflexivity|]. f_equal. exact IH. }
+    rewrite E. exact G1. }
+  split; [exact G2|]. intros c1 k1 Hg1. destruct (Nat.eq_dec c1 c) as [->|Hn].
+  - rewrite Hgc in Hg1. injection Hg1 as <-.
+    apply cinv_build; try congruence.
+    + rewrite F6. lia.
+    + intros Hx. exfalso. apply Hx. left. exact F1.
+    + unfold counters_ok. rewrite F1, F13, F14. auto.
+    + apply chan_update_poller.
+    + unfold phase, owner_alive. rewrite F1, F5, F8, F9.
+      change (todoN (isE c) s2) with (todoN (isE c) s). change (todoN (isR c) s2) with (todoN (isR c) s).
+      change (todoN (isD c) s2) with (todoN (isD c) s). change (s_cli s2) with (s_cli s). change (s_cliconn s2) with (Some c).
+      repeat split; auto.
+  - rewrite (Es2 c1 Hn) in Hg1.
+    assert (Hlt : c1 < c).
+    { destruct (Nat.lt_ge_cases c1 c) as [H|H]; [exact H|]. exfalso. unfold getc, s1, add_conn in Hg1. cbn in Hg1.
+      assert (nth_error (s_conns s ++ [k0]) c1 = None) by (apply nth_error_None; rewrite app_length; cbn; fold c; lia). congruence. }
+    unfold s1 in Hg1. rewrite getc_add_old in Hg1 by exact Hlt.
+    apply (same_for_cinv s s2 c1 k1); [|exact Hg1| |apply HC, Hg1].
+    + apply (same_for_trans s s1 s2 c1); [|apply same_for_put]. apply add_conn_frame; [exact Hlt|]. right. auto.
+    + rewrite (Es2 c1 Hn). unfold s1. rewrite getc_add_old by exact Hlt. exact Hg1.
+Qed.
+
+Lemma put_put s c k1 k2 : put (put s c k1) c k2 = put s c k2.
+Proof.
+  unfold put, set_conns. cbn. f_equal. generalize (s_conns s) c. induction l as [|x l IH]; intros [|n]; cbn; auto. f_equal. apply IH.
+Qed.
+
+Lemma ginv_cli_off s : GInv s -> forall cs ls, length ls = length (s_loops s) ->
+  (forall l v t, nth_error ls l = Some v -> In t (q_all v) -> placed (mkSys (s_nio s) (s_readd s) cs ls (s_rr s) (s_srv s) false None (s_calls s)) l t) ->
+  (forall a, In a (s_calls s) -> exists k, nth_error cs (a_conn a) = Some k /\ k_alive k = true /\ k_st k <> Connecting) ->
+  GInv (mkSys (s_nio s) (s_readd s) cs ls (s_rr s) (s_srv s) false None (s_calls s)).
+Proof.
+  intros [G1 Gr G2 [G3 G3'] G4] cs ls Hlen Hpl Hcalls. constructor; cbn; auto.
+  - congruence.
+  - discriminate.
+Qed.
+
+Lemma step_CliDestroy s : Inv s -> step_ok s CliDestroy.
+Proof.
+  intros [[G HC] HH]. unfold step_ok, step, cli_destroy. destruct (s_cli s) eqn:Hcli; [|exact I]. cbn [negb].
+  destruct (s_cliconn s) as [c|] eqn:Hcc.
+  - destruct (gi_cli s G c Hcc) as (_ & k & Hg & Ha & Hm & Hcb & Hup). rewrite Hg.
+    pose proof (HC c k Hg) as HCk.
+    destruct (phase_up_cases s c k (ci_phase s c k HCk Ha) Hup) as (Hadd & HE & HR & Hcase).
+    assert (HD : todoN (isD c) s = 0).
+    { destruct Hcase as [(_ & B & _)|[(B & _)|(B & _)]]; [exact B|congruence|congruence]. }
+    destruct (ci_loop s c k HCk) as [L1 L2]. assert (L0 : k_loop k = 0) by (apply L2; congruence).
+    destruct (ci_dtor s c k HCk) as [D1 D2]. rewrite Ha in D1.
+    assert (Hlt : c < length (s_conns s)) by (eapply getc_lt, Hg).
+    set (ka := set_own k CbDetail (k_mapped k) (k_urefs k) (k_delayed k)).
+    match goal with |- match finish (if ?b then _ else _) _ with _ => _ end => destruct b eqn:Eg end; [exact I|].
+    assert (Hg1 : getc (put s c ka) c = Some ka) by (apply getc_put_eq, Hlt).
+    destruct (getl_valid s 0 G (Nat.le_0_l _)) as [v0 Hv0].
+    (* what is needed of the final state *)
+    assert (Hfinal : forall ls kf, length ls = length (s_loops s) ->
+              (forall l v t, nth_error ls l = Some v -> In t (q_all v) ->
+                 (exists v', getl s l = Some v' /\ In t (q_all v')) \/ t = TForceClose c /\ l = 0) ->
+              (forall c1, c1 <> c -> same_for s (mkSys (s_nio s) (s_readd s) (upd (s_conns s) c kf) ls (s_rr s) (s_srv s) false None (s_calls s)) c1) ->
+              same_core (set_own kf CbDetail false (k_urefs k) (k_delayed k)) kf ->
+              (k_st kf = k_st k \/ k_st kf = Disconnecting) -> k_wr kf = k_wr k -> k_rd kf = k_rd k -> k_added kf = true ->
+              k_pidx kf = k_pidx k -> k_loop kf = 0 -> k_alive kf = true -> k_ups kf = k_ups k -> k_downs kf = k_downs k ->
+              k_dtors kf = 0 -> k_closes kf = 0 ->
+              (1 <= k_urefs k \/ 1 <= sumq (fun l => cnt (isF c) (q_todo l)) ls) ->
+              sumq (fun l => cnt (isE c) (q_todo l)) ls = 0 -> sumq (fun l => cnt (isR c) (q_todo l)) ls = 0 ->
+              sumq (fun l => cnt (isD c) (q_todo l)) ls = 0 ->
+              Inv0 (mkSys (s_nio s) (s_readd s) (upd (s_conns s) c kf) ls (s_rr s) (s_srv s) false None (s_calls s))).
+    { intros ls kf Hlen Htasks Hfr Hcore Hst E2 E3 E4 E5 E6 E7 E11 E12 E13 E14 Hhold NE NR ND.
+      destruct Hcore as (C1 & C2 & C3 & C4 & C5 & C6 & C7 & C8 & C9 & C10 & _). cbn [set_own k_ccb k_mapped k_urefs] in C8, C9, C10.
+      assert (Hupf : up_k kf) by (destruct Hst as [E|E]; [unfold up_k; rewrite E; exact Hup|right; exact E]).
+      set (s' := mkSys (s_nio s) (s_readd s) (upd (s_conns s) c kf) ls (s_rr s) (s_srv s) false None (s_calls s)).
+      assert (Hext : conns_ext s s').
+      { split; [unfold s'; cbn; rewrite length_upd; lia|]. intros c1 k1 Hk1. destruct (Nat.eq_dec c c1) as [<-|Hn].
+        - exists kf. unfold getc, s'. cbn. rewrite nth_upd_eq by exact Hlt. split; [reflexivity|]. split; [congruence|].
+          intros _. destruct Hupf; congruence.
+        - exists k1. unfold getc, s'. cbn. rewrite nth_upd_neq by exact Hn. auto. }
+      apply (invx_close s s' c (invx_of_inv0 s c (conj G HC))).
+      - apply (ginv_cli_off s G); [exact Hlen| |].
+        + intros l v t Hv Hin. destruct (Htasks l v t Hv Hin) as [(v' & Hv' & Hin')|[-> ->]].
+          * apply (placed_mono s s' l t Hext), (gi_placed s G l v' t Hv' Hin').
+          * split; [reflexivity|]. split; [intros ? Hx; discriminate Hx|]. exists kf. unfold getc, s'. cbn.
+            rewrite nth_upd_eq by exact Hlt. split; [reflexivity|]. split; [exact E6|]. intros _. destruct Hupf; congruence.
+        + intros a Hin. destruct (proj2 (gi_calls s G) a Hin) as (k1 & Hk1 & Ha1 & Hs1). destruct (Nat.eq_dec c (a_conn a)) as [E|Hn].
+          * exists kf. rewrite <- E, nth_upd_eq by exact Hlt. split; [reflexivity|]. split; [exact E7|]. destruct Hupf; congruence.
+          * exists k1. rewrite nth_upd_neq by exact Hn. auto.
+      - intros c1 Hn. split; [unfold getc, s'; cbn; apply nth_upd_neq; auto|apply Hfr, Hn].
+      - intros k2 Hk2. unfold getc, s' in Hk2. cbn in Hk2. rewrite nth_upd_eq in Hk2 by exact Hlt. injection Hk2 as <-.
+        apply cinv_build; auto.
+        + cbn. lia.
+        + intros Hx. exfalso. apply Hx, Hupf.
+        + pose proof (ci_cnt s c k HCk Ha) as Hc. unfold counters_ok in *. rewrite E11, E12.
+          destruct Hst as [E|E]; rewrite E; [exact Hc|]. destruct Hup as [Eu|Eu]; rewrite Eu in Hc; exact Hc.
+        + pose proof (ci_poll s c k HCk Ha) as Hp. unfold poller_ok, k_none in *. cbn [s_readd]. rewrite E4, E5, E2, E3.
+          rewrite Hadd in Hp. exact Hp.
+        + unfold phase. assert (Hb : k_added kf = true /\ todoN (isE c) s' = 0 /\ todoN (isR c) s' = 0 /\
+            (k_mapped kf = false /\ todoN (isD c) s' = 0 /\ k_ccb kf = CbDetail /\ (1 <= k_urefs kf \/ 1 <= todoN (isF c) s'))).
+          { unfold todoN, s'. cbn [s_loops]. rewrite C8, C9, C10. auto 10. }
+          destruct Hb as (B1 & B2 & B3 & B4). destruct Hupf as [E|E]; rewrite E; auto 10. }
+    cbn [andb] in Eg.
+    destruct (holders s c =? 1) eqn:Euniq.
+    + (* unique: forceClose() *)
+      unfold force_close. rewrite Hg1. assert (Ecl : k_closable ka = true) by (apply closable_up_k; exact Hup). rewrite Ecl.
+      set (kb := set_life ka Disconnecting (k_ups ka) (k_downs ka)).
+      assert (Hgb : getc (put (put s c ka) c kb) c = Some kb) by (apply getc_put_eq; rewrite length_conns_put; exact Hlt).
+      rewrite getc_enq, Hgb. cbn [ret]. apply finish_ok.
+      set (kf := set_own kb (k_ccb kb) false (k_urefs kb) (k_delayed kb)).
+      assert (Hl0 : k_loop ka = 0) by exact L0.
+      rewrite Hl0. unfold enq. change (s_loops (put (put s c ka) c kb)) with (s_loops s). unfold getl in Hv0. rewrite Hv0.
+      unfold set_cli, put, set_conns, set_loops. cbn [s_nio s_readd s_conns s_loops s_rr s_srv s_cli s_cliconn s_calls].
+      assert (Eupd : upd (upd (upd (s_conns s) c ka) c kb) c kf = upd (s_conns s) c kf).
+      { clear. generalize (s_conns s) c. induction l as [|x l IH]; intros [|n]; cbn; auto. f_equal. apply IH. }
+      rewrite Eupd.
+      set (v1 := mkLq (q_pend v0 ++ [TForceClose c]) (q_batch v0) (q_spent v0)).
+      assert (HsF : forall p, sumq (fun l => cnt p (q_todo l)) (upd (s_loops s) 0 v1) = todoN p s + (if p (TForceClose c) then 1 else 0)).
+      { intros p. pose proof (sumq_upd (fun l => cnt p (q_todo l)) (s_loops s) 0 v0 v1 Hv0) as E.
+        assert (E2 : cnt p (q_todo v1) = cnt p (q_todo v0) + (if p (TForceClose c) then 1 else 0)).
+        { unfold q_todo, v1. cbn [q_pend q_batch]. rewrite app_assoc. apply cnt_snoc. }
+        unfold todoN. cbn beta in *. lia. }
+      apply Hfinal; try reflexivity; try (cbn; auto; fail); try (rewrite length_upd; reflexivity); try (cbn; lia).
+      * intros l v t Hv Hin. destruct (Nat.eq_dec l 0) as [->|Hn].
+        -- rewrite nth_upd_eq in Hv by (eapply nth_some_lt, Hv0). injection Hv as <-.
+           apply in_q_all_set in Hin as [Hin| ->]; [left; exists v0; split; [exact Hv0|exact Hin]|right; auto].
+        -- rewrite nth_upd_neq in Hv by auto. left. exists v. auto.
+      * intros c1 Hn.
+        pose proof (same_for_put_enq s c kf 0 (TForceClose c) c1 Hn ltac:(cbn; apply Nat.eqb_refl)) as Hs.
+        rewrite (enq_set_loop (put s c kf) 0 (TForceClose c) v0 Hv0) in Hs.
+        destruct Hs as [S1 S2 S3 S4 S5 S6 S7 S8 S9 S10 S11]. constructor; try assumption; try reflexivity.
+        cbn. rewrite Hcc. split; [intros [Hx _]; discriminate|]. intros [_ Hx]. injection Hx as Hx. congruence.
+      * unfold same_core. cbn. repeat split.
+      * right. rewrite (HsF (isF c)). cbn. rewrite Nat.eqb_refl. lia.
+      * rewrite (HsF (isE c)). cbn. lia.
+      * rewrite (HsF (isR c)). cbn. lia.
+      * rewrite (HsF (isD c)). cbn. lia.
+    + (* a reference is held elsewhere: no forceClose() *)
+      cbn [negb andb] in Eg. apply negb_false_iff, Nat.eqb_eq in Eg.
+      rewrite Hg1. cbn [ret]. apply finish_ok.
+      set (kf := set_own ka (k_ccb ka) false (k_urefs ka) (k_delayed ka)).
+      unfold set_cli. rewrite put_put. unfold put, set_conns. cbn [s_nio s_readd s_conns s_loops s_rr s_srv s_cli s_cliconn s_calls].
+      apply Hfinal; try reflexivity; try (cbn; auto; fail); try (cbn; lia).
+      * intros l v t Hv Hin. left. exists v. auto.
+      * intros c1 Hn. constructor; try reflexivity.
+        cbn. rewrite Hcc. split; [intros [Hx _]; discriminate|]. intros [_ Hx]. injection Hx as Hx. congruence.
+      * unfold same_core. cbn. repeat split.
+      * left. apply Nat.eqb_neq in Euniq. lia.
+  - (* no connection: the connector is stopped *)
+    cbn [ret]. apply finish_ok. set (s1 := set_cli s false None).
+    assert (HI1 : Inv0 s1).
+    { split.
+      - destruct G as [G1 Gr G2 G3 G4]. constructor; auto. discriminate.
+      - intros c k Hg. change (getc s1 c) with (getc s c) in Hg.
+        apply (same_for_cinv s s1 c k); [|exact Hg|exact Hg|apply HC, Hg].
+        constructor; try reflexivity. cbn. rewrite Hcc. split; intros [_ Hx]; discriminate. }
+    apply enq_plain; [exact HI1|reflexivity| |discriminate].
+    split; [reflexivity|]. split; [intros ? Hx; discriminate Hx|exact I].
+Qed.
+
+(* ---- ~TcpServer ------------------------------------------------------------------------------------- *)
+Lemma has_task_false s p q : has_task p s = false -> (forall t, q t = true -> p t = true) ->
+  todoN q s = 0 /\ allN q s = 0.
+Proof.
+  intros H Hq. unfold has_task in H.
+  assert (Hz : forall v, In v (s_loops s) -> cnt q (q_all v) = 0).
+  { intros v Hin. apply cnt_zero_notin. intros t Ht. destruct (q t) eqn:E; [|reflexivity]. exfalso.
+    assert (Hx : existsb (fun l => existsb p (q_all l)) (s_loops s) = true).
+    { apply existsb_exists. exists v. split; [exact Hin|]. apply existsb_exists. exists t. split; [exact Ht|apply Hq, E]. }
+    congruence. }
+  split.
+  - unfold todoN. apply sumq_zero. intros v Hin. pose proof (Hz v Hin) as E. rewrite q_all_todo, cnt_app in E. lia.
+  - unfold allN. apply sumq_zero. exact Hz.
+Qed.
+
+Lemma isR_remove c t : isR c t = true -> is_remove t = true.
+Proof. destruct t; cbn; auto; discriminate. Qed.
+Lemma isF_force c t : isF c t = true -> is_force t = true.
+Proof. destruct t; cbn; auto; discriminate. Qed.
+
+Lemma set_srv_fields s b : s_nio (set_srv s b) = s_nio s /\ s_readd (set_srv s b) = s_readd s /\ s_conns (set_srv s b) = s_conns s /\
+  s_loops (set_srv s b) = s_loops s /\ s_cli (set_srv s b) = s_cli s /\ s_cliconn (set_srv s b) = s_cliconn s /\
+  s_calls (set_srv s b) = s_calls s /\ s_srv (set_srv s b) = b.
+Proof. repeat split. Qed.
+
+(* a connection that ~TcpServer does not touch does not care whether the server object exists *)
+Lemma cinv_srv_off s c k : CInv s c k -> s_srv s = true -> todoN (isR c) s = 0 ->
+  ~ (k_alive k = true /\ k_ccb k = CbServer /\ k_mapped k = true) -> CInv (set_srv s false) c k.
+Proof.
+  intros [Hl Hi Hc Hp Hph Hd Hds Hdt] Hsrv HR Hnot. constructor; auto.
+  intros Ha. specialize (Hph Ha). unfold phase, owner_alive in *.
+  change (todoN (isE c) (set_srv s false)) with (todoN (isE c) s). change (todoN (isR c) (set_srv s false)) with (todoN (isR c) s).
+  change (todoN (isD c) (set_srv s false)) with (todoN (isD c) s). change (todoN (isF c) (set_srv s false)) with (todoN (isF c) s).
+  change (loop_todo (set_srv s false) (k_loop k)) with (loop_todo s (k_loop k)).
+  change (s_cli (set_srv s false)) with (s_cli s). change (s_cliconn (set_srv s false)) with (s_cliconn s).
+  change (s_srv (set_srv s false)) with false. rewrite Hsrv in Hph.
+  destruct (k_st k).
+  - exfalso. destruct Hph as (_ & Hcb & _ & _ & _ & _ & [(Hm & _)|(_ & _ & Hx)]); [apply Hnot; auto|discriminate].
+  - destruct Hph as (A1 & A2 & A3 & [(B1 & B2 & B3)|[(_ & _ & _ & Hx & _)|B]]); [|discriminate|auto 10].
+    repeat (split; [assumption|]). left. repeat (split; [assumption|]).
+    destruct (k_ccb k) eqn:E; [exfalso; apply Hnot; auto|exact B3|exact B3].
+  - destruct Hph as (A1 & A2 & A3 & [(B1 & B2 & B3)|[(_ & _ & _ & Hx & _)|B]]); [|discriminate|auto 10].
+    repeat (split; [assumption|]). left. repeat (split; [assumption|]).
+    destruct (k_ccb k) eqn:E; [exfalso; apply Hnot; auto|exact B3|exact B3].
+  - destruct Hph as (A1 & [(_ & _ & Hx & _)|B]); [lia|]. split; [exact A1|]. right. exact B.
+Qed.
+
+Lemma same_for_srv s s' c : same_for s s' c -> same_for (set_srv s false) (set_srv s' false) c.
+Proof. intros []. constructor; auto. Qed.
+
+(* the invariant inside ~TcpServer's loop: connections below c are already as they will be once
+   the server object is gone, the others are untouched *)
+Definition SInv (s : sys) (c : nat) : Prop :=
+  GInv s /\ s_srv s = true /\ has_task is_remove s = false /\ has_task is_force s = false /\
+  forall c1 k1, getc s c1 = Some k1 -> (c1 < c -> CInv (set_srv s false) c1 k1) /\ (c <= c1 -> CInv s c1 k1).
+
+Lemma has_task_enq s l t p : has_task p s = false -> p t = false -> has_task p (enq s l t) = false.
+Proof.
+  intros H Hp. destruct (getl s l) as [v|] eqn:Ev; [|rewrite (enq_none s l t Ev); exact H].
+  rewrite (enq_set_loop s l t v Ev). unfold has_task, set_loop in *. cbn [s_loops set_loops].
+  apply not_true_is_false. intros Hx. apply existsb_exists in Hx as (w & Hw & Hex).
+  apply In_nth_error in Hw as [j Hj]. destruct (Nat.eq_dec l j) as [<-|Hn].
+  - rewrite nth_upd_eq in Hj by (eapply nth_some_lt, Ev). injection Hj as <-.
+    apply existsb_exists in Hex as (x & Hx & Hpx). apply in_q_all_set in Hx as [Hx| ->]; [|congruence].
+    assert (existsb (fun l0 => existsb p (q_all l0)) (s_loops s) = true); [|congruence].
+    apply existsb_exists. exists v. split; [eapply nth_error_In, Ev|]. apply existsb_exists. eauto.
+  - rewrite nth_upd_neq in Hj by exact Hn.
+    assert (existsb (fun l0 => existsb p (q_all l0)) (s_loops s) = true); [|congruence].
+    apply existsb_exists. exists w. split; [eapply nth_error_In, Hj|exact Hex].
+Qed.
+
+Lemma srv_destroy_step s c k : SInv s c -> getc s c = Some k -> k_alive k = true -> k_ccb k = CbServer -> k_mapped k = true ->
+  exists s' o, (let s1 := put s c (unmapped k) in
+                if k_loop k =? 0 then connect_destroyed s1 0 c else ret (enq s1 (k_loop k) (TDestroy c))) = Ok (s', o) /\
+               SInv s' (S c) /\ length (s_conns s') = length (s_conns s).
+Proof.
+  intros (G & Hsrv & Hnr & Hnf & HC) Hg Ha Hcb Hm. cbv zeta.
+  pose proof (proj2 (HC c k Hg) (Nat.le_refl c)) as HCk.
+  pose proof (ci_phase s c k HCk Ha) as Hph.
+  destruct (ci_loop s c k HCk) as [L1 L2]. destruct (ci_dtor s c k HCk) as [D1 D2]. rewrite Ha in D1.
+  assert (Hlt : c < length (s_conns s)) by (eapply getc_lt, Hg).
+  destruct (has_task_false s is_remove (isR c) Hnr (isR_remove c)) as [NR _].
+  destruct (has_task_false s is_force (isF c) Hnf (isF_force c)) as [NF _].
+  set (ku := unmapped k). set (s1 := put s c ku).
+  assert (Hncli : s_cliconn s <> Some c).
+  { intros Hc. destruct (gi_cli s G c Hc) as (_ & k0 & Hk0 & _ & _ & Hx & _). rewrite Hg in Hk0. injection Hk0 as <-. congruence. }
+  assert (G1 : GInv s1) by (apply (ginv_put_nc s c k ku G Hg eq_refl eq_refl (fun H => H) Hncli)).
+  assert (Hg1 : getc s1 c = Some ku) by (apply getc_put_eq, Hlt).
+  (* the three possible phases of a live, mapped server connection *)
+  assert (Hcases : (k_st k = Connecting /\ k_loop k <> 0) \/ (up_k k /\ k_added k = true) ).
+  { unfold phase in Hph. destruct (k_st k) eqn:Est.
+    - left. split; [reflexivity|]. destruct Hph as (_ & _ & HE & _).
+      (* the queued connectEstablished sits on an io loop *)
+      destruct (getl_valid s (k_loop k) G L1) as [v Hv].
+      pose proof (todoN_local (isE c) s c k G Hg L1 (isE_local c)) as EL. unfold loop_todo in EL. rewrite Hv in EL.
+      assert (Hex : exists t, In t (q_todo v) /\ isE c t = true).
+      { clear - EL HE. rewrite HE in EL. induction (q_todo v) as [|x l IH]; [cbn in EL; lia|]. rewrite cnt_cons in EL.
+        destruct (isE c x) eqn:E; [exists x; split; [left; reflexivity|exact E]|]. destruct IH as (t & Ht & Et); [lia|]. exists t. split; [right; exact Ht|exact Et]. }
+      destruct Hex as (t & Ht & Et). assert (Hin : In t (q_all v)) by (rewrite q_all_todo; apply in_or_app; right; exact Ht).
+      destruct (gi_placed s G (k_loop k) v t Hv Hin) as [_ [Hne _]]. destruct t; cbn in Et; try discriminate. apply (Hne c0 eq_refl).
+    - right. split; [left; exact Est|apply Hph].
+    - right. split; [right; exact Est|apply Hph].
+    - exfalso. destruct Hph as (_ & [(_ & _ & Hx & _)|[(_ & Hx & _)|(_ & Hx & _)]]); [lia|congruence|congruence]. }
+  (* frame and the untouched connections *)
+  assert (Hrest : forall s', GInv s' -> has_task is_remove s' = false -> has_task is_force s' = false -> s_srv s' = true ->
+            (forall c1, c1 <> c -> getc s' c1 = getc s c1 /\ same_for s s' c1) ->
+            (forall k', getc s' c = Some k' -> CInv (set_srv s' false) c k') -> SInv s' (S c)).
+  { intros s' G' Hnr' Hnf' Hsrv' Hfr Hc'. split; [exact G'|]. split; [exact Hsrv'|]. split; [exact Hnr'|]. split; [exact Hnf'|].
+    intros c1 k1 Hg1'. destruct (Nat.eq_dec c1 c) as [->|Hn].
+    - split; [intros _; apply Hc', Hg1'|lia].
+    - destruct (Hfr c1 Hn) as [A B]. rewrite A in Hg1'. destruct (HC c1 k1 Hg1') as [H1 H2]. split.
+      + intros Hx. apply (same_for_cinv (set_srv s false) (set_srv s' false) c1 k1 (same_for_srv s s' c1 B)); [exact Hg1'| |apply H1; lia].
+        change (getc (set_srv s' false) c1) with (getc s' c1). rewrite A. exact Hg1'.
+      + intros Hx. apply (same_for_cinv s s' c1 k1 B Hg1'); [rewrite A; exact Hg1'|apply H2; lia]. }
+  destruct (k_loop k =? 0) eqn:El0.
+  - (* the acceptor loop is the connection's loop: connectDestroyed runs inline *)
+    apply Nat.eqb_eq in El0. destruct Hcases as [(_ & Hx)|(Hup & Hadd)]; [congruence|].
+    unfold connect_destroyed. rewrite Hg1. cbn [ku unmapped set_own k_alive k_loop]. rewrite Ha, El0. cbn [Nat.eqb negb].
+    assert (Ecl : k_closable ku = true) by (apply closable_up_k; exact Hup).
+    rewrite Ecl.
+    pose proof (chan_update_fields (s_readd s1) (set_life ku Disconnected (k_ups ku) (S (k_downs ku))) false false) as F.
+    cbv zeta in F.
+    set (k1 := chan_update (s_readd s1) (set_life ku Disconnected (k_ups ku) (S (k_downs ku))) false false) in *.
+    unfold ku, unmapped in F.
+    cbn [set_life set_own k_st k_rflag k_loop k_alive k_ccb k_mapped k_urefs k_delayed k_fin k_ups k_downs k_dtors k_closes] in F.
+    destruct F as (F1 & F2 & F3 & F4 & F5 & F6 & F7 & F8 & F9 & F10 & F11 & F12 & F13 & F14 & F15 & F16 & F17).
+    unfold chan_remove, k_none. rewrite F2, F3. cbn [orb negb].
+    destruct (pidx_eqb (k_pidx k1) PNew) eqn:Ep; [destruct (k_pidx k1); try discriminate; congruence|].
+    cbn [emit]. set (k2 := set_chan k1 false false false PNew). unfold s1. rewrite put_put.
+    eexists _, _. split; [reflexivity|]. split; [|apply length_conns_put].
+    apply Hrest.
+    + apply (ginv_put_nc s c k k2 G Hg); cbn; try congruence.
+    + exact Hnr.
+    + exact Hnf.
+    + exact Hsrv.
+    + intros c1 Hn. split; [apply getc_put_neq; auto|apply same_for_put].
+    + intros k' Hk'. change (getc (set_srv (put s c k2) false) c) with (getc (put s c k2) c) in *.
+      rewrite getc_put_eq in Hk' by exact Hlt. injection Hk' as <-.
+      pose proof (ci_cnt s c k HCk Ha) as Hc. unfold counters_ok in Hc.
+      apply cinv_build; cbn [k2 set_chan k_alive k_loop k_ccb k_wr k_rd k_dtors k_closes k_st k_ups k_downs]; try congruence; auto.
+      * cbn. rewrite F6. exact L1.
+      * unfold counters_ok. cbn. rewrite F1, F13, F14. destruct Hup as [E|E]; rewrite E in Hc; lia.
+      * unfold poller_ok, k_none. cbn. split; [tauto|discriminate].
+      * unfold phase. cbn [k2 set_chan k_st k_added k_mapped k_ccb]. rewrite F1.
+        change (todoN (isE c) (set_srv (put s c k2) false)) with (todoN (isE c) s).
+        change (todoN (isR c) (set_srv (put s c k2) false)) with (todoN (isR c) s).
+        change (todoN (isD c) (set_srv (put s c k2) false)) with (todoN (isD c) s).
+        destruct (phase_up_cases s c k Hph Hup) as (_ & HE & _ & [(_ & HD & _)|[(B & _)|(B & _)]]); try congruence.
+        split; [exact HE|]. right. right. rewrite F9. auto.
+  - (* an io loop: connectDestroyed is queued there *)
+    apply Nat.eqb_neq in El0. cbn [ret]. set (t := TDestroy c). set (s2 := enq s1 (k_loop k) t).
+    destruct (getl_valid s (k_loop k) G L1) as [v Hv]. assert (Hv1 : getl s1 (k_loop k) = Some v) by exact Hv.
+    destruct (enq_fields s1 (k_loop k) t) as (N1 & N2 & N3 & N4 & N5 & N6).
+    exists s2, []. split; [reflexivity|]. split; [|unfold s2; rewrite conns_enq; apply length_conns_put].
+    apply Hrest.
+    + apply ginv_enq; [exact G1|]. split; [reflexivity|]. split; [intros ? Hx; discriminate Hx|]. exists ku. split; [exact Hg1|]. split; [reflexivity|discriminate].
+    + apply has_task_enq; [exact Hnr|reflexivity].
+    + apply has_task_enq; [exact Hnf|reflexivity].
+    + unfold s2. rewrite N3. exact Hsrv.
+    + intros c1 Hn. split; [unfold s2; rewrite getc_enq; apply getc_put_neq; auto|].
+      apply same_for_put_enq; [exact Hn|]. cbn. apply Nat.eqb_refl.
+    + intros k' Hk'. change (getc (set_srv s2 false) c) with (getc s2 c) in Hk'. unfold s2 in Hk'. rewrite getc_enq, Hg1 in Hk'. injection Hk' as <-.
+      apply cinv_build; cbn [ku unmapped set_own k_alive k_loop k_ccb k_wr k_rd k_dtors k_closes]; try congruence; auto.
+      * change (s_nio (set_srv s2 false)) with (s_nio s2). unfold s2. rewrite N1. exact L1.
+      * apply (ci_idle s c k HCk Ha).
+      * apply (ci_cnt s c k HCk Ha).
+      * change (s_readd (set_srv s2 false)) with (s_readd s2). unfold s2. rewrite N2. apply (ci_poll s c k HCk Ha).
+      * unfold phase. cbn [ku unmapped set_own k_st k_added k_mapped k_ccb k_loop k_urefs].
+        change (todoN (isE c) (set_srv s2 false)) with (todoN (isE c) s2). change (todoN (isR c) (set_srv s2 false)) with (todoN (isR c) s2).
+        change (todoN (isD c) (set_srv s2 false)) with (todoN (isD c) s2). change (todoN (isF c) (set_srv s2 false)) with (todoN (isF c) s2).
+        change (loop_todo (set_srv s2 false) (k_loop k)) with (loop_todo s2 (k_loop k)). change (s_srv (set_srv s2 false)) with false.
+        unfold s2. rewrite (todoN_enq (isE c) s1 _ t v Hv1), (todoN_enq (isR c) s1 _ t v Hv1), (todoN_enq (isD c) s1 _ t v Hv1),
+                           (todoN_enq (isF c) s1 _ t v Hv1), (loop_todo_enq_eq s1 _ t v Hv1).
+        unfold t. cbn [isE isR isD isF]. rewrite Nat.eqb_refl.
+        change (todoN (isE c) s1) with (todoN (isE c) s). change (todoN (isR c) s1) with (todoN (isR c) s).
+        change (todoN (isD c) s1) with (todoN (isD c) s). change (todoN (isF c) s1) with (todoN (isF c) s).
+        change (loop_todo s1 (k_loop k)) with (loop_todo s (k_loop k)).
+        unfold phase in Hph. destruct Hcases as [(Est & _)|(Hup & Hadd)].
+        -- rewrite Est in *. destruct Hph as (A1 & A2 & A3 & A4 & A5 & A6 & [(B1 & B2 & B3)|(B1 & _)]); [|congruence].
+           repeat (split; [assumption || lia|]). split; [apply first_life_app_some, A6|]. right. repeat split; auto; lia.
+        -- destruct (phase_up_cases s c k Hph Hup) as (_ & HE & _ & [(_ & HD & _)|[(B & _)|(B & _)]]); try congruence.
+           assert (Hgoal : k_added k = true /\ todoN (isE c) s + 0 = 0 /\ todoN (isR c) s + 0 = 0 /\
+             (false = true /\ todoN (isD c) s + 1 = 0 /\ owner_alive (set_srv s2 false) c ku \/
+              false = false /\ todoN (isD c) s + 1 = 1 /\ k_ccb k = CbServer /\ false = false /\
+                first_life c (loop_todo s (k_loop k) ++ [TDestroy c]) = Some LD \/
+              false = false /\ todoN (isD c) s + 1 = 0 /\ k_ccb k = CbDetail /\ (1 <= k_urefs k \/ 1 <= todoN (isF c) s + 0))).
+           { split; [exact Hadd|]. split; [lia|]. split; [lia|]. right. left. repeat (split; [reflexivity || lia || assumption|]).
+             pose proof (todoN_local (isE c) s c k G Hg L1 (isE_local c)) as LE'.
+             pose proof (todoN_local (isD c) s c k G Hg L1 (isD_local c)) as LD'.
+             pose proof (todoN_local (isF c) s c k G Hg L1 (isF_local c)) as LF'.
+             rewrite first_life_app_none; [cbn; unfold life_of; cbn; rewrite Nat.eqb_refl; reflexivity|].
+             apply cnt_zero_first_life; lia. }
+           unfold owner_alive in *. destruct Hup as [E|E]; rewrite E; exact Hgoal.
+Qed.
+
+Lemma srv_destroy_from_inv n : forall s c, SInv s c -> length (s_conns s) <= c + n ->
+  exists s' o, srv_destroy_from s n c = Ok (s', o) /\ Inv0 (set_srv s' false).
+Proof.
+  induction n as [|n IH]; intros s c HS Hlen.
+  - cbn [srv_destroy_from ret]. exists s, []. split; [reflexivity|].
+    destruct HS as (G & Hsrv & _ & _ & HC). split.
+    + destruct G as [G1 Gr G2 G3 G4]. constructor; auto.
+    + intros c1 k1 Hg. change (getc (set_srv s false) c1) with (getc s c1) in Hg.
+      apply (proj1 (HC c1 k1 Hg)). apply getc_lt in Hg. lia.
+  - cbn [srv_destroy_from]. destruct (getc s c) as [k|] eqn:Hg.
+    + assert (Hskip : SInv s (S c) \/ (k_alive k = true /\ k_ccb k = CbServer /\ k_mapped k = true)).
+      { destruct (k_alive k) eqn:Ha; destruct (k_ccb k) eqn:Ecb; destruct (k_mapped k) eqn:Em; auto.
+        all: left; destruct HS as (G & Hsrv & Hnr & Hnf & HC); split; [exact G|]; split; [exact Hsrv|]; split; [exact Hnr|]; split; [exact Hnf|];
+          intros c1 k1 Hg1; destruct (HC c1 k1 Hg1) as [H1 H2]; split; [|intros Hx; apply H2; lia];
+          intros Hx; destruct (Nat.eq_dec c1 c) as [->|Hn]; [|apply H1; lia];
+          rewrite Hg in Hg1; injection Hg1 as <-;
+          apply cinv_srv_off; [apply H2; lia|exact Hsrv|apply (has_task_false s is_remove (isR c) Hnr (isR_remove c))|];
+          intros (A & B & C); congruence. }
+      destruct (k_ccb k) eqn:Ecb.
+      * destruct (k_mapped k && k_alive k) eqn:Ema.
+        -- apply andb_prop in Ema as [Em Ha].
+           destruct (srv_destroy_step s c k HS Hg Ha Ecb Em) as (s1 & o1 & E1 & HS1 & Hl1). cbv zeta in E1. unfold unmapped in E1. rewrite Ecb in E1.
+           rewrite E1. destruct (IH s1 (S c) HS1) as (s2 & o2 & E2 & HI2); [lia|]. cbn [bind]. rewrite E2. eauto.
+        -- destruct Hskip as [HS1|(A & B & C)]; [|rewrite A, C in Ema; discriminate]. apply (IH s (S c) HS1). lia.
+      * destruct Hskip as [HS1|(A & B & C)]; [|congruence]. apply (IH s (S c) HS1). lia.
+      * destruct Hskip as [HS1|(A & B & C)]; [|congruence]. apply (IH s (S c) HS1). lia.
+    + cbn [ret]. exists s, []. split; [reflexivity|]. destruct HS as (G & Hsrv & _ & _ & HC). split.
+      * destruct G as [G1 Gr G2 G3 G4]. constructor; auto.
+      * intros c1 k1 Hg1. change (getc (set_srv s false) c1) with (getc s c1) in Hg1.
+        apply (proj1 (HC c1 k1 Hg1)). unfold getc in Hg. apply nth_error_None in Hg. apply getc_lt in Hg1. lia.
+Qed.
+
+Lemma step_SrvDestroy s : Inv s -> step_ok s SrvDestroy.
+Proof.
+  intros [[G HC] HH]. unfold step_ok, step. destruct (s_srv s) eqn:Hsrv; [|exact I]. cbn [negb andb].
+  destruct (has_task is_remove s || has_task is_force s) eqn:Eg; [exact I|]. apply orb_false_iff in Eg as [Enr Enf].
+  assert (HS : SInv s 0).
+  { split; [exact G|]. split; [exact Hsrv|]. split; [exact Enr|]. split; [exact Enf|].
+    intros c1 k1 Hg1. split; [lia|]. intros _. apply HC, Hg1. }
+  destruct (srv_destroy_from_inv (length (s_conns s)) s 0 HS) as (s1 & o1 & E1 & HI1); [lia|].
+  rewrite E1. cbn [bind ret]. rewrite app_nil_r. apply finish_ok, HI1.
+Qed.
+
+(* ==== the theorems =================================================================================== *)
+Theorem step_strict_ok s o : Inv s -> step_ok s o.
+Proof.
+  intros HI. destruct o.
+  - apply step_Accept, HI.
+  - apply step_SrvDestroy, HI.
+  - apply step_CliConnect, HI.
+  - apply step_CliDestroy, HI.
+  - apply step_Swap, HI.
+  - apply step_Run, HI.
+  - apply step_EndBatch, HI.
+  - apply step_Ev, HI.
+  - apply step_DelayFire, HI.
+  - apply step_LShutdown, HI.
+  - apply step_LForceClose, HI.
+  - apply step_LForceCloseDelay, HI.
+  - apply step_LSend, HI.
+  - apply step_LStartRead, HI.
+  - apply step_LStopRead, HI.
+  - apply step_UGrab, HI.
+  - apply step_UDrop, HI.
+  - apply step_XBegin, HI.
+  - apply step_XStore, HI.
+  - apply step_XEnq, HI.
+Qed.
+
+Lemma run_strict_ok ops : forall s, Inv s ->
+  match run true s ops with Ok (s', _) => Inv s' | Rejected => True | Fault => False end.
+Proof.
+  induction ops as [|o ops IH]; intros s HI; cbn [run ret]; [exact HI|].
+  pose proof (step_strict_ok s o HI) as H. unfold step_ok in H. unfold bind.
+  destruct (step true s o) as [[s1 o1]| |]; [|exact I|exact H].
+  specialize (IH s1 H). destruct (run true s1 ops) as [[s2 o2]| |]; auto.
+Qed.
+
+(* states reached from an initial state by accepted ops under the environment hypotheses *)
+Inductive sreach : sys -> Prop :=
+| sreach_init nio readd : sreach (init_sys nio readd)
+| sreach_step s o s' obs : sreach s -> step true s o = Ok (s', obs) -> sreach s'.
+
+Lemma sreach_inv s : sreach s -> Inv s.
+Proof.
+  induction 1 as [nio readd|s o s' obs _ IH H]; [apply init_inv|].
+  pose proof (step_strict_ok s o IH) as Hs. unfold step_ok in Hs. rewrite H in Hs. exact Hs.
+Qed.
+
+Lemma run_sreach ops : forall s s' obs, sreach s -> run true s ops = Ok (s', obs) -> sreach s'.
+Proof.
+  induction ops as [|o ops IH]; intros s s' obs Hr H; cbn [run ret] in H.
+  - injection H as <- _. exact Hr.
+  - unfold bind in H. destruct (step true s o) as [[s1 o1]| |] eqn:E1; try discriminate.
+    destruct (run true s1 ops) as [[s2 o2]| |] eqn:E2; try discriminate. injection H as <- _.
+    apply (IH s1 s2 o2); [eapply sreach_step; eassumption|exact E2].
+Qed.
+
+(* no assertion of the C++, no use of a destroyed object *)
+Theorem S02_no_fault : forall nio readd ops, run true (init_sys nio readd) ops <> Fault.
+Proof.
+  intros nio readd ops H. pose proof (run_strict_ok ops _ (init_inv nio readd)) as Hr. rewrite H in Hr. exact Hr.
+Qed.
+
+Theorem S02_step_no_fault : forall s o, sreach s -> step true s o <> Fault.
+Proof.
+  intros s o Hr H. pose proof (step_strict_ok s o (sreach_inv s Hr)) as Hs. unfold step_ok in Hs. rewrite H in Hs. exact Hs.
+Qed.
+
+(* destruction: at most once, close(fd) exactly as often, and only of a connection that is
+   Disconnected, removed from its loop and not in the epoll set; a live connection has a holder *)
+Theorem S02_destroyed_once : forall s c k, sreach s -> getc s c = Some k ->
+  k_dtors k <= 1 /\ k_closes k = k_dtors k /\ (k_dtors k = 1 <-> k_alive k = false) /\
+  (k_alive k = false -> k_st k = Disconnected /\ k_added k = false /\ k_inset k = false /\ holders s c = 0) /\
+  (k_alive k = true -> 1 <= holders s c) /\
+  (k_alive k = true -> holders s c = (if k_mapped k then 1 else 0) + k_urefs k + count_calls c (s_calls s) + allN (holds c) s).
+Proof.
+  intros s c k Hr Hg. destruct (sreach_inv s Hr) as [[G HC] HH]. pose proof (HC c k Hg) as HCk.
+  destruct (ci_dtor s c k HCk) as [D1 D2]. split; [destruct (k_alive k); lia|]. split; [exact D2|]. split.
+  - destruct (k_alive k); split; intros; try lia; try discriminate; reflexivity.
+  - split; [|split].
+    + intros Ha. destruct (ci_deadst s c k HCk Ha) as (A & B & C). unfold k_inset. rewrite C. repeat split; auto. apply (ci_dead s c k HCk Ha).
+    + intros Ha. apply (HH c k Hg Ha).
+    + intros _. apply holders_eq, Hg.
+Qed.
+
+(* no leak: when nothing is queued or in flight anywhere and the user holds no reference, every
+   connection is either still in service (owned by its live server / client, up) or destroyed *)
+Definition quiescent (s : sys) : Prop :=
+  (forall l v, getl s l = Some v -> q_all v = []) /\ s_calls s = [] /\
+  (forall c k, getc s c = Some k -> k_urefs k = 0).
+
+Theorem S02_no_leak : forall s, sreach s -> quiescent s -> forall c k, getc s c = Some k ->
+  (k_alive k = true /\ k_mapped k = true /\ up_k k /\ owner_alive s c k) \/
+  (k_alive k = false /\ k_dtors k = 1 /\ k_closes k = 1 /\ k_st k = Disconnected /\ k_added k = false /\ k_inset k = false).
+Proof.
+  intros s Hr (Hq & Hcalls & Hu) c k Hg. destruct (sreach_inv s Hr) as [[G HC] HH]. pose proof (HC c k Hg) as HCk.
+  destruct (k_alive k) eqn:Ha.
+  - left. pose proof (HH c k Hg Ha) as Hh. rewrite (holders_eq s c k Hg), Hcalls, (Hu c k Hg) in Hh.
+    assert (Hall : forall p, allN p s = 0 /\ todoN p s = 0).
+    { intros p. split.
+      - unfold allN. apply sumq_zero. intros v Hin. apply In_nth_error in Hin as [l Hl]. rewrite (Hq l v Hl). reflexivity.
+      - unfold todoN. apply sumq_zero. intros v Hin. apply In_nth_error in Hin as [l Hl]. pose proof (Hq l v Hl) as E.
+        rewrite q_all_todo in E. apply app_eq_nil in E as [_ E]. rewrite E. reflexivity. }
+    rewrite (proj1 (Hall (holds c))) in Hh. cbn in Hh.
+    assert (Hm : k_mapped k = true) by (destruct (k_mapped k); [reflexivity|lia]).
+    pose proof (ci_phase s c k HCk Ha) as Hph. unfold phase in Hph.
+    rewrite (proj2 (Hall (isE c))), (proj2 (Hall (isR c))), (proj2 (Hall (isD c))) in Hph.
+    destruct (k_st k) eqn:Est.
+    + destruct Hph as (_ & _ & Hx & _). discriminate.
+    + destruct Hph as (_ & _ & _ & [(_ & _ & B)|[(B & _)|(B & _)]]); try congruence. repeat split; auto. left. exact Est.
+    + destruct Hph as (_ & _ & _ & [(_ & _ & B)|[(B & _)|(B & _)]]); try congruence. repeat split; auto. right. exact Est.
+    + destruct Hph as (_ & [(_ & _ & Hx & _)|[(_ & B & _)|(_ & B & _)]]); [discriminate|congruence|congruence].
+  - right. destruct (ci_dtor s c k HCk) as [D1 D2]. rewrite Ha in D1.
+    destruct (ci_deadst s c k HCk Ha) as (A & B & C). unfold k_inset. rewrite C. repeat split; auto. congruence.
+Qed.
+
+(* ==== affinity: which thread runs the callbacks ====================================================== *)
+(* [lk s s']: every connection of s is still there in s', on the same loop *)
+Definition lk (s s' : sys) : Prop :=
+  forall c k, getc s c = Some k -> exists k', getc s' c = Some k' /\ k_loop k' = k_loop k.
+
+Definition aff (s : sys) (x : obs) : Prop :=
+  match x with
+  | OUp thr c | ODown thr c | OMsg thr c => exists k, getc s c = Some k /\ k_loop k = thr
+  | ODtor _ _ _ => True
+  end.
+
+Definition good (s : sys) (m : M) : Prop :=
+  match m with Ok (s', o) => lk s s' /\ Forall (aff s') o | _ => True end.
+
+Lemma lk_refl s : lk s s.
+Proof. intros c k H. eauto. Qed.
+
+Lemma lk_trans s1 s2 s3 : lk s1 s2 -> lk s2 s3 -> lk s1 s3.
+Proof.
+  intros H1 H2 c k Hk. destruct (H1 c k Hk) as (k2 & Hk2 & E2). destruct (H2 c k2 Hk2) as (k3 & Hk3 & E3).
+  exists k3. split; [exact Hk3|congruence].
+Qed.
+
+Lemma aff_lk s s' x : lk s s' -> aff s x -> aff s' x.
+Proof.
+  intros H. destruct x; cbn; auto; intros (k & Hk & E); destruct (H _ _ Hk) as (k' & Hk' & E'); exists k'; split; auto; congruence.
+Qed.
+
+Lemma lk_put s c k' : (forall k, getc s c = Some k -> k_loop k' = k_loop k) -> lk s (put s c k').
+Proof.
+  intros H c1 k1 Hk1. destruct (Nat.eq_dec c c1) as [<-|Hn].
+  - exists k'. rewrite getc_put_eq by (eapply getc_lt, Hk1). split; [reflexivity|apply H, Hk1].
+  - exists k1. rewrite getc_put_neq by exact Hn. auto.
+Qed.
+
+Lemma lk_enq s l t : lk s (enq s l t).
+Proof. intros c k H. exists k. rewrite getc_enq. auto. Qed.
+
+Lemma lk_same_conns s s' : s_conns s' = s_conns s -> lk s s'.
+Proof. intros E c k H. exists k. unfold getc in *. rewrite E. auto. Qed.
+
+Lemma good_ret s s' : lk s s' -> good s (ret s').
+Proof. intros H. split; [exact H|constructor]. Qed.
+
+Lemma good_bind s m f : good s m -> (forall s1, good s1 (f s1)) -> good s (bind m f).
+Proof.
+  intros Hm Hf. unfold bind. destruct m as [[s1 o1]| |]; [|exact I|exact I].
+  specialize (Hf s1). destruct (f s1) as [[s2 o2]| |]; [|exact I|exact I].
+  destruct Hm as [L1 A1]. destruct Hf as [L2 A2]. split; [apply (lk_trans s s1 s2); assumption|].
+  apply Forall_app. split; [|exact A2]. eapply Forall_impl; [|exact A1]. intros x. apply aff_lk, L2.
+Qed.
+
+Lemma good_weaken s0 s m : lk s0 s -> good s m -> good s0 m.
+Proof. intros H. destruct m as [[s' o]| |]; auto. intros [L A]. split; [apply (lk_trans s0 s s'); assumption|exact A]. Qed.
+
+Ltac loop_same := intros; cbn [set_life set_own set_rflag set_fin set_chan kill k_loop unmapped]; repeat match goal with
+  | |- context [chan_update ?r ?k ?w ?d] =>
+      let F := fresh "F" in pose proof (chan_update_fields r k w d) as F; cbv zeta in F;
+      destruct F as (_ & _ & _ & _ & _ & F & _); rewrite F; clear F
+  end; cbn [set_life set_own set_rflag set_fin set_chan kill k_loop unmapped]; try reflexivity; try congruence.
+
+Lemma good_establish s thr c : good s (establish s thr c).
+Proof.
+  unfold establish. destruct (getc s c) as [k|] eqn:Hg; [|exact I].
+  destruct (negb (k_alive k)); [exact I|]. destruct (thr =? k_loop k) eqn:Et; [|exact I]. cbn [negb].
+  destruct (negb (cstate_eqb (k_st k) Connecting)); [exact I|]. apply Nat.eqb_eq in Et. unfold emit.
+  assert (Hl : k_loop (chan_update (s_readd s) (set_life k Connected (S (k_ups k)) (k_downs k)) (k_wr (set_life k Connected (S (k_ups k)) (k_downs k))) true) = k_loop k) by loop_same.
+  split.
+  - apply lk_put. intros k0 Hk0. rewrite Hg in Hk0. injection Hk0 as <-. exact Hl.
+  - constructor; [|constructor]. unfold aff. eexists. rewrite getc_put_eq by (eapply getc_lt, Hg). split; [reflexivity|congruence].
+Qed.
+
+Lemma good_remove_in_loop s thr c : good s (remove_in_loop s thr c).
+Proof.
+  unfold remove_in_loop. destruct (negb (s_srv s)); [exact I|]. destruct (negb (thr =? 0)); [exact I|].
+  destruct (getc s c) as [k|] eqn:Hg; [|exact I]. destruct (negb (k_mapped k)); [exact I|].
+  apply good_ret. apply (lk_trans _ (put s c (set_own k (k_ccb k) false (k_urefs k) (k_delayed k)))); [|apply lk_enq].
+  apply lk_put. intros k0 Hk0. rewrite Hg in Hk0. injection Hk0 as <-. reflexivity.
+Qed.
+
+Lemma good_close_cb s thr c : good s (close_cb s thr c).
+Proof.
+  unfold close_cb. destruct (getc s c) as [k|] eqn:Hg; [|exact I]. destruct (k_ccb k).
+  - destruct (negb (s_srv s)); [exact I|]. destruct (thr =? 0); [apply good_remove_in_loop|apply good_ret, lk_enq].
+  - destruct (negb (s_cli s)); [exact I|]. destruct (negb (thr =? 0)); [exact I|]. destruct (s_cliconn s) as [c'|]; [|exact I].
+    destruct (negb (c' =? c)); [exact I|]. apply good_ret.
+    apply (lk_trans _ (put s c (set_own k CbClient false (k_urefs k) (k_delayed k)))).
+    + apply lk_put. intros k0 Hk0. rewrite Hg in Hk0. injection Hk0 as <-. reflexivity.
+    + eapply lk_trans; [|apply lk_enq]. apply lk_same_conns. reflexivity.
+  - apply good_ret, lk_enq.
+Qed.
+
+Lemma good_handle_close s thr c : good s (handle_close s thr c).
+Proof.
+  unfold handle_close. destruct (getc s c) as [k|] eqn:Hg; [|exact I].
+  destruct (thr =? k_loop k) eqn:Et; [|exact I]. cbn [negb]. destruct (negb (k_closable k)); [exact I|].
+  apply Nat.eqb_eq in Et. apply good_bind; [|intros s1; apply good_close_cb].
+  assert (Hl : k_loop (chan_update (s_readd s) (set_life k Disconnected (k_ups k) (S (k_downs k))) false false) = k_loop k) by loop_same.
+  unfold emit. split.
+  - apply lk_put. intros k0 Hk0. rewrite Hg in Hk0. injection Hk0 as <-. exact Hl.
+  - constructor; [|constructor]. unfold aff. eexists. rewrite getc_put_eq by (eapply getc_lt, Hg). split; [reflexivity|congruence].
+Qed.
+
+Lemma good_connect_destroyed s thr c : good s (connect_destroyed s thr c).
+Proof.
+  unfold connect_destroyed. destruct (getc s c) as [k|] eqn:Hg; [|exact I].
+  destruct (negb (k_alive k)); [exact I|]. destruct (thr =? k_loop k) eqn:Et; [|exact I]. cbn [negb]. apply Nat.eqb_eq in Et.
+  destruct (k_closable k).
+  - assert (Hl : k_loop (chan_update (s_readd s) (set_life k Disconnected (k_ups k) (S (k_downs k))) false false) = k_loop k) by loop_same.
+    unfold chan_remove. destruct (negb (k_none _)); [exact I|]. destruct (pidx_eqb _ PNew); [exact I|]. unfold emit. split.
+    + apply lk_put. intros k0 Hk0. rewrite Hg in Hk0. injection Hk0 as <-. cbn [set_chan k_loop]. exact Hl.
+    + constructor; [|constructor]. unfold aff. eexists. rewrite getc_put_eq by (eapply getc_lt, Hg). split; [reflexivity|]. cbn [set_chan k_loop]. congruence.
+  - unfold chan_remove. destruct (negb (k_none k)); [exact I|]. destruct (pidx_eqb _ PNew); [exact I|]. unfold emit. split; [|constructor].
+    apply lk_put. intros k0 Hk0. rewrite Hg in Hk0. injection Hk0 as <-. reflexivity.
+Qed.
+
+Lemma lk_force_close s c : lk s (force_close s c).
+Proof.
+  unfold force_close. destruct (getc s c) as [k|] eqn:Hg; [|apply lk_refl]. destruct (k_closable k); [|apply lk_refl].
+  eapply lk_trans; [|apply lk_enq]. apply lk_put. intros k0 Hk0. rewrite Hg in Hk0. injection Hk0 as <-. reflexivity.
+Qed.
+
+Lemma lk_start_read s c : lk s (start_read s c).
+Proof.
+  unfold start_read. destruct (getc s c) as [k|] eqn:Hg; [|apply lk_refl]. destruct (_ && _); [|apply lk_refl].
+  apply lk_put. intros k0 Hk0. rewrite Hg in Hk0. injection Hk0 as <-. loop_same.
+Qed.
+
+Lemma lk_stop_read s c : lk s (stop_read s c).
+Proof.
+  unfold stop_read. destruct (getc s c) as [k|] eqn:Hg; [|apply lk_refl]. destruct (_ && _); [|apply lk_refl].
+  apply lk_put. intros k0 Hk0. rewrite Hg in Hk0. injection Hk0 as <-. loop_same.
+Qed.
+
+Lemma lk_send_in_loop s c full wc : lk s (send_in_loop s c full wc).
+Proof.
+  unfold send_in_loop. destruct (getc s c) as [k|] eqn:Hg; [|apply lk_refl].
+  destruct (cstate_eqb (k_st k) Disconnected); [apply lk_refl|]. destruct (k_wr k); [apply lk_refl|]. destruct (k_fin k); [apply lk_refl|].
+  destruct full; [destruct wc; [apply lk_enq|apply lk_refl]|].
+  apply lk_put. intros k0 Hk0. rewrite Hg in Hk0. injection Hk0 as <-. loop_same.
+Qed.
+
+Lemma lk_sweep_from n : forall s thr c, lk s (fst (sweep_from s thr n c)).
+Proof.
+  induction n as [|n IH]; intros s thr c; cbn [sweep_from]; [apply lk_refl|].
+  destruct (getc s c) as [k|] eqn:Hg; [|apply lk_refl].
+  destruct (k_alive k && (holders s c =? 0)).
+  - specialize (IH (put s c (kill k)) thr (S c)). destruct (sweep_from (put s c (kill k)) thr n (S c)) as [s' o]. cbn [fst] in *.
+    eapply lk_trans; [|exact IH]. apply lk_put. intros k0 Hk0. rewrite Hg in Hk0. injection Hk0 as <-. reflexivity.
+  - apply IH.
+Qed.
+
+Lemma sweep_from_obs n : forall s thr c x, In x (snd (sweep_from s thr n c)) -> exists c0 b, x = ODtor thr c0 b.
+Proof.
+  induction n as [|n IH]; intros s thr c x; cbn [sweep_from]; [intros []|].
+  destruct (getc s c) as [k|] eqn:Hg; [|intros []].
+  destruct (k_alive k && (holders s c =? 0)).
+  - specialize (IH (put s c (kill k)) thr (S c) x). destruct (sweep_from (put s c (kill k)) thr n (S c)) as [s' o]. cbn [snd] in *.
+    intros [<-|Hin]; [eauto|apply IH, Hin].
+  - apply IH.
+Qed.
+
+Lemma good_finish s m thr : good s m -> good s (finish m thr).
+Proof.
+  unfold finish. destruct m as [[s1 o1]| |]; auto. intros [L A].
+  pose proof (lk_sweep_from (length (s_conns s1)) s1 thr 0) as Ls. pose proof (sweep_from_obs (length (s_conns s1)) s1 thr 0) as Os.
+  unfold sweep. destruct (sweep_from s1 thr (length (s_conns s1)) 0) as [s2 d]. cbn [fst snd] in *.
+  destruct (all_clean d); [|exact I]. split; [apply (lk_trans s s1 s2); assumption|].
+  apply Forall_app. split.
+  - eapply Forall_impl; [|exact A]. intros x. apply aff_lk, Ls.
+  - apply Forall_forall. intros x Hx. destruct (Os x Hx) as (c0 & b & ->). exact I.
+Qed.
+
+Lemma lk_add s k rr cc : lk s (add_conn s k rr cc).
+Proof. intros c k1 H. exists k1. rewrite getc_add_old by (eapply getc_lt, H). auto. Qed.
+
+Lemma good_accept s : good s (accept s).
+Proof.
+  unfold accept. destruct (negb (s_srv s)); [exact I|].
+  match goal with |- good s (if ?b then establish ?s1 0 ?c else _) => assert (L : lk s s1) by apply lk_add end.
+  destruct (_ =? 0).
+  - eapply good_weaken; [exact L|apply good_establish].
+  - apply good_ret. eapply lk_trans; [exact L|apply lk_enq].
+Qed.
+
+Lemma good_srv_destroy_from n : forall s c, good s (srv_destroy_from s n c).
+Proof.
+  induction n as [|n IH]; intros s c; cbn [srv_destroy_from]; [apply good_ret, lk_refl|].
+  destruct (getc s c) as [k|] eqn:Hg; [|apply good_ret, lk_refl].
+  destruct (k_ccb k); try apply IH. destruct (k_mapped k && k_alive k); [|apply IH].
+  assert (L : lk s (put s c (set_own k CbServer false (k_urefs k) (k_delayed k)))).
+  { apply lk_put. intros k0 Hk0. rewrite Hg in Hk0. injection Hk0 as <-. reflexivity. }
+  apply good_bind; [|intros s1; apply IH].
+  destruct (k_loop k =? 0).
+  - eapply good_weaken; [exact L|apply good_connect_destroyed].
+  - apply good_ret. eapply lk_trans; [exact L|apply lk_enq].
+Qed.
+
+Lemma good_cli_connect s : good s (cli_connect s).
+Proof.
+  unfold cli_connect. destruct (negb (s_cli s)); [exact I|]. destruct (s_cliconn s); [exact I|].
+  match goal with |- good s (establish ?s1 0 ?c) => assert (L : lk s s1) by (intros c1 k1 H; exists k1; split; [|reflexivity];
+    unfold getc in *; cbn; rewrite nth_app_old by (eapply nth_some_lt, H); exact H) end.
+  eapply good_weaken; [exact L|apply good_establish].
+Qed.
+
+Lemma good_cli_destroy strict s : good s (cli_destroy strict s).
+Proof.
+  unfold cli_destroy. destruct (negb (s_cli s)); [exact I|]. destruct (s_cliconn s) as [c|].
+  - destruct (getc s c) as [k|] eqn:Hg; [|exact I]. destruct (_ && _ && _); [exact I|].
+    set (s1 := put s c (set_own k CbDetail (k_mapped k) (k_urefs k) (k_delayed k))).
+    assert (L1 : lk s s1) by (apply lk_put; intros k0 Hk0; rewrite Hg in Hk0; injection Hk0 as <-; reflexivity).
+    set (s2 := if holders s c =? 1 then force_close s1 c else s1).
+    assert (L2 : lk s s2) by (unfold s2; destruct (holders s c =? 1); [eapply lk_trans; [exact L1|apply lk_force_close]|exact L1]).
+    destruct (getc s2 c) as [k2|] eqn:Hg2; [|exact I]. apply good_ret.
+    eapply lk_trans; [exact L2|]. eapply lk_trans; [|apply lk_same_conns; reflexivity].
+    apply lk_put. intros k0 Hk0. rewrite Hg2 in Hk0. injection Hk0 as <-. reflexivity.
+  - apply good_ret. eapply lk_trans; [|apply lk_enq]. apply lk_same_conns. reflexivity.
+Qed.
+
+Lemma good_run_task s l t full wc : good s (run_task s l t full wc).
+Proof.
+  destruct t; cbn [run_task].
+  - apply good_establish.
+  - apply good_remove_in_loop.
+  - apply good_connect_destroyed.
+  - destruct (getc s c) as [k|]; [|exact I]. destruct (k_closable k); [apply good_handle_close|apply good_ret, lk_refl].
+  - apply good_ret, lk_refl.
+  - destruct (getc s c) as [k|] eqn:Hg; [|exact I]. destruct (k_alive k); [|exact I]. apply good_ret.
+    apply lk_put. intros k0 Hk0. rewrite Hg in Hk0. injection Hk0 as <-. unfold shutdown_in_loop. destruct (k_wr k); reflexivity.
+  - destruct (match getc s c with Some k => k_alive k | None => false end); [apply good_ret, lk_start_read|exact I].
+  - destruct (match getc s c with Some k => k_alive k | None => false end); [apply good_ret, lk_stop_read|exact I].
+  - destruct (match getc s c with Some k => k_alive k | None => false end); [apply good_ret, lk_send_in_loop|exact I].
+  - destruct (getc s c) as [k|] eqn:Hg; [|exact I]. apply good_ret.
+    apply lk_put. intros k0 Hk0. rewrite Hg in Hk0. injection Hk0 as <-. reflexivity.
+  - apply good_ret, lk_refl.
+Qed.
+
+Lemma good_ev_step strict s c e : good s (ev_step strict s c e).
+Proof.
+  unfold ev_step. destruct (getc s c) as [k|] eqn:Hg; [|exact I]. destruct (negb _); [exact I|].
+  destruct e.
+  - destruct (k_rd k); [|exact I]. split; [apply lk_refl|]. constructor; [|constructor]. exists k. auto.
+  - destruct (k_rd k); [|exact I]. destruct (_ && _); [exact I|apply good_handle_close].
+  - destruct (k_rd k); [apply good_ret, lk_refl|exact I].
+  - destruct (_ && _); [exact I|apply good_handle_close].
+  - apply good_ret, lk_refl.
+  - destruct (k_wr k); [|exact I]. destruct drained; [|apply good_ret, lk_refl]. apply good_ret.
+    assert (L : lk s (put s c (if cstate_eqb (k_st k) Disconnecting then shutdown_in_loop (chan_update (s_readd s) k false (k_rd k)) else chan_update (s_readd s) k false (k_rd k)))).
+    { apply lk_put. intros k0 Hk0. rewrite Hg in Hk0. injection Hk0 as <-. unfold shutdown_in_loop.
+      destruct (cstate_eqb (k_st k) Disconnecting); [destruct (k_wr _)|]; loop_same. }
+    destruct wc; [eapply lk_trans; [exact L|apply lk_enq]|exact L].
+Qed.
+
+Lemma good_on_conn s c f : (forall k, getc s c = Some k -> good s (f k)) -> good s (on_conn s c f).
+Proof. intros H. unfold on_conn. destruct (getc s c) as [k|] eqn:Hg; [|exact I]. destruct (_ && _); [apply H; reflexivity|exact I]. Qed.
+
+Lemma good_step strict s o : good s (step strict s o).
+Proof.
+  destruct o; cbn [step].
+  - apply good_finish, good_accept.
+  - destruct (negb (s_srv s)); [exact I|]. destruct (_ && _); [exact I|]. apply good_finish.
+    apply good_bind; [apply good_srv_destroy_from|]. intros s1. apply good_ret, lk_same_conns. reflexivity.
+  - apply good_finish, good_cli_connect.
+  - apply good_finish, good_cli_destroy.
+  - destruct (getl s l) as [v|]; [|exact I]. destruct (q_idle v); [|exact I]. apply good_ret, lk_same_conns. reflexivity.
+  - destruct (getl s l) as [v|]; [|exact I]. destruct (q_batch v) as [|t rest]; [exact I|]. apply good_finish.
+    eapply good_weaken; [|apply good_run_task]. apply lk_same_conns. reflexivity.
+  - destruct (getl s l) as [v|]; [|exact I]. destruct (q_batch v); [|exact I]. destruct (q_spent v); [exact I|].
+    apply good_finish, good_ret, lk_same_conns. reflexivity.
+  - destruct (getc s c) as [k|]; [|exact I]. apply good_finish, good_ev_step.
+  - destruct (getc s c) as [k|] eqn:Hg; [|exact I]. destruct (k_delayed k); [exact I|]. destruct (negb _); [exact I|].
+    apply good_finish, good_ret.
+    assert (L : lk s (put s c (set_own k (k_ccb k) (k_mapped k) (k_urefs k) n))) by (apply lk_put; intros k0 Hk0; rewrite Hg in Hk0; injection Hk0 as <-; reflexivity).
+    destruct (k_alive k); [eapply lk_trans; [exact L|apply lk_force_close]|exact L].
+  - apply good_on_conn. intros k Hg. apply good_ret. destruct (cstate_eqb (k_st k) Connected); [|apply lk_refl].
+    apply lk_put. intros k0 Hk0. rewrite Hg in Hk0. injection Hk0 as <-. unfold shutdown_in_loop. destruct (k_wr _); reflexivity.
+  - apply good_on_conn. intros k Hg. apply good_ret, lk_force_close.
+  - apply good_on_conn. intros k Hg. apply good_ret. destruct (k_closable k); [|apply lk_refl].
+    apply lk_put. intros k0 Hk0. rewrite Hg in Hk0. injection Hk0 as <-. reflexivity.
+  - apply good_on_conn. intros k Hg. apply good_ret. destruct (cstate_eqb (k_st k) Connected); [apply lk_send_in_loop|apply lk_refl].
+  - apply good_on_conn. intros k Hg. destruct (k_added k); [apply good_ret, lk_start_read|exact I].
+  - apply good_on_conn. intros k Hg. destruct (k_added k); [apply good_ret, lk_stop_read|exact I].
+  - apply good_on_conn. intros k Hg. apply good_ret. apply lk_put. intros k0 Hk0. rewrite Hg in Hk0. injection Hk0 as <-. reflexivity.
+  - destruct (getc s c) as [k|] eqn:Hg; [|exact I]. destruct (k_urefs k); [exact I|]. destruct (_ && _ && _ && _ && _); [exact I|].
+    apply good_finish, good_ret. apply lk_put. intros k0 Hk0. rewrite Hg in Hk0. injection Hk0 as <-. reflexivity.
+  - destruct (find_call u (s_calls s)); [exact I|]. apply good_on_conn. intros k Hg. apply good_ret, lk_same_conns. reflexivity.
+  - destruct (find_call u (s_calls s)) as [a|]; [|exact I]. destruct (a_stored a); [exact I|].
+    destruct (getc s (a_conn a)) as [k|] eqn:Hg; [|exact I]. destruct (_ && _); [exact I|]. apply good_ret.
+    destruct (_ && _); [|apply lk_same_conns; reflexivity].
+    match goal with |- lk s (put ?s1 _ _) => apply (lk_trans s s1); [apply lk_same_conns; reflexivity|] end.
+    apply lk_put. intros k0 Hk0. change (getc s (a_conn a) = Some k0) in Hk0.
+    rewrite Hg in Hk0. injection Hk0 as <-. reflexivity.
+  - destruct (find_call u (s_calls s)) as [a|]; [|exact I]. destruct (negb (a_stored a)); [exact I|].
+    destruct (getc s (a_conn a)) as [k|] eqn:Hg; [|exact I]. destruct (_ && _ && _ && _); [exact I|].
+    apply good_finish, good_ret. destruct (a_loaded a); [|apply lk_same_conns; reflexivity].
+    destruct (a_api a); match goal with |- lk s (enq ?s1 _ _) => apply (lk_trans s s1); [apply lk_same_conns; reflexivity|apply lk_enq] end.
+Qed.
+
+(* every connection / message callback is run by a step of the connection's own loop *)
+Theorem S02_affinity_step : forall strict s o s' obs, step strict s o = Ok (s', obs) ->
+  forall thr c, In (OUp thr c) obs \/ In (ODown thr c) obs \/ In (OMsg thr c) obs ->
+  exists k, getc s' c = Some k /\ k_loop k = thr.
+Proof.
+  intros strict s o s' obs H thr c Hin. pose proof (good_step strict s o) as Hg. rewrite H in Hg. destruct Hg as [_ A].
+  rewrite Forall_forall in A. destruct Hin as [Hin|[Hin|Hin]]; apply (A _ Hin).
+Qed.
+
+Lemma good_run strict ops : forall s, good s (run strict s ops).
+Proof.
+  induction ops as [|o ops IH]; intros s; cbn [run]; [apply good_ret, lk_refl|].
+  apply good_bind; [apply good_step|exact IH].
+Qed.
+
+Theorem S02_affinity : forall strict nio readd ops s obs, run strict (init_sys nio readd) ops = Ok (s, obs) ->
+  forall thr c, In (OUp thr c) obs \/ In (ODown thr c) obs \/ In (OMsg thr c) obs ->
+  exists k, getc s c = Some k /\ k_loop k = thr.
+Proof.
+  intros strict nio readd ops s obs H thr c Hin. pose proof (good_run strict ops (init_sys nio readd)) as Hg. rewrite H in Hg.
+  destruct Hg as [_ A]. rewrite Forall_forall in A. destruct Hin as [Hin|[Hin|Hin]]; apply (A _ Hin).
+Qed.
+
+(* ==== outside the environment hypotheses: witnesses (each replayed on the real code, corpus/C02/sys) == *)
+Definition count_down (c : nat) (o : list obs) : nat :=
+  length (filter (fun x => match x with ODown _ c' => c' =? c | _ => false end) o).
+
+Definition w_server_lifetime : list op :=
+  [Accept; Swap 1; Run 1 true true; EndBatch 1; Ev 0 KEof; SrvDestroy; Swap 0; Run 0 true true].
+Definition w_server_lifetime2 : list op :=
+  [Accept; Swap 1; Run 1 true true; EndBatch 1; LForceClose 0; SrvDestroy; Swap 1; Run 1 true true].
+Definition w_raw_functor : list op :=
+  [Accept; XBegin 1 0 AStartRead; Ev 0 KEof; Swap 0; Run 0 true true; XEnq 1 false; EndBatch 0; Swap 0; Run 0 true true].
+Definition w_f19 : list op :=
+  [Accept; XBegin 1 0 AShutdown; Ev 0 KEof; XStore 1; XEnq 1 true; Swap 0; Run 0 true true; Run 0 true true; EndBatch 0].
+Definition w_f20 : list op :=
+  [CliConnect; LSend 0 true true; CliDestroy; Swap 0; Run 0 true true; EndBatch 0].
+Definition w_f15 : list op :=
+  [Accept; LStopRead 0; LForceClose 0; Swap 0; Run 0 true true; EndBatch 0; Ev 0 KHup].
+
+Lemma W_server_lifetime : run false (init_sys 1 false) w_server_lifetime = Fault /\
+  run false (init_sys 1 false) w_server_lifetime2 = Fault /\
+  run true (init_sys 1 false) w_server_lifetime = Rejected /\ run true (init_sys 1 false) w_server_lifetime2 = Rejected.
+Proof. repeat split; vm_compute; reflexivity. Qed.
+
+Lemma W_raw_functor : run false (init_sys 0 false) w_raw_functor = Fault /\ run true (init_sys 0 false) w_raw_functor = Rejected.
+Proof. split; vm_compute; reflexivity. Qed.
+
+Lemma W_f19 : (exists s o, run false (init_sys 0 false) w_f19 = Ok (s, o) /\ count_down 0 o = 2) /\
+  run true (init_sys 0 false) w_f19 = Rejected.
+Proof. split; [vm_compute; eexists _, _; split; reflexivity|vm_compute; reflexivity]. Qed.
+
+Lemma W_f20 : run false (init_sys 0 false) w_f20 = Fault /\ run true (init_sys 0 false) w_f20 = Rejected.
+Proof. split; vm_compute; reflexivity. Qed.
+
+Lemma W_f15 : run false (init_sys 0 true) w_f15 = Fault /\ run true (init_sys 0 true) w_f15 = Rejected /\
+  run false (init_sys 0 false) w_f15 = Rejected.
+Proof. repeat split; vm_compute; reflexivity. Qed.
+
+(* with the fixed poller (F-15) a registered descriptor always has interest: the HUP hypothesis is not needed *)
+Lemma S02_inset_has_interest : forall s c k, sreach s -> s_readd s = false -> getc s c = Some k -> k_alive k = true ->
+  k_inset k = true -> k_wr k = true \/ k_rd k = true.
+Proof.
+  intros s c k Hr Hrd Hg Ha Hin. destruct (sreach_inv s Hr) as [[G HC] _].
+  destruct (ci_poll s c k (HC c k Hg) Ha) as [_ Hp]. unfold k_inset in Hin. destruct (k_pidx k) eqn:Ep; try discriminate.
+  destruct (k_none k) eqn:En; [specialize (Hp eq_refl eq_refl); congruence|].
+  unfold k_none in En. apply negb_false_iff, orb_prop in En. exact En.
+Qed.
+
+(* a full life in strict mode, for non-vacuity *)
+Definition ex_sys_ops : list op :=
+  [Accept; Accept; CliConnect; Swap 1; Run 1 true true; EndBatch 1; Ev 0 KData; UGrab 0; XBegin 1 0 AShutdown; XStore 1; XEnq 1 true;
+   Ev 0 KEof; Swap 0; Run 0 true true; EndBatch 0; Swap 1; Run 1 true true; Run 1 true true; EndBatch 1; UDrop 0;
+   Swap 2; Run 2 true true; EndBatch 2; LSend 1 false true; Ev 1 (KOut true true); SrvDestroy; Swap 2; Run 2 true true; Run 2 true true; EndBatch 2;
+   CliDestroy; Swap 0; Run 0 true true; EndBatch 0; Swap 0; Run 0 true true; EndBatch 0].
+
+Lemma ex_sys_run : exists s o, run true (init_sys 2 false) ex_sys_ops = Ok (s, o) /\
+  o = [OUp 0 2; OUp 1 0; OMsg 1 0; ODown 1 0; ODtor 100 0 true; OUp 2 1; ODown 2 1; ODtor 2 1 true; ODown 0 2; ODtor 0 2 true] /\
+  (forall l v, getl s l = Some v -> q_all v = []) /\ s_calls s = [].
+Proof.
+  vm_compute. eexists _, _. split; [reflexivity|]. split; [reflexivity|]. split; [|reflexivity].
+  intros [|[|[|l]]] v H; cbn in H; try (injection H as <-; reflexivity). destruct l; discriminate.
 Qed.
